@@ -72,26 +72,37 @@ CanExec(ct, code) == code \in {"multisig", "paych"} \/ (code = "miner" /\ ct = "
 
 Reserved(a) == a[1] = "raw" /\ a[2] \in {"null", "precompile", "idlike"}
 
-NoDeploy == [ok |-> FALSE, id |-> 0, how |-> "-", rob |-> None]
+NoDeploy == [ok |-> FALSE, id |-> 0, how |-> "-", rob |-> None, res |-> <<>>]
 
-\* run the EVM constructor on id i (fresh, placeholder or dead contract) at address a
-Construct(s, i, a, init, how, rb) ==
+RECURSIVE RunOps(_, _, _, _, _), Construct(_, _, _, _, _, _, _), Deploy(_, _, _, _)
+
+\* run the EVM constructor on id i (fresh, placeholder or dead contract) at address a.  Init code
+\* "reenter" calls the creator back (program <<create ok>>) before returning the code: the creator is
+\* re-entered while its own CREATE is in progress.  While it is being constructed the new contract
+\* has no code.
+Construct(s, i, a, init, how, rb, creator) ==
   IF init = "revert" THEN NoDeploy
-  ELSE [ok |-> TRUE, id |-> i, how |-> how, rob |-> rb,
-        S |-> [s EXCEPT !.act[i] = [code |-> "evm", addr |-> a, nonce |-> 1, seq |-> s.act[i].seq,
-                                    tomb |-> IF init = "sd" THEN 1 ELSE 0, hc |-> init = "ok"]]]
+  ELSE LET s1 == [s EXCEPT !.act[i] = [code |-> "evm", addr |-> a, nonce |-> 1, seq |-> s.act[i].seq,
+                                       tomb |-> IF init = "sd" THEN 1 ELSE 0, hc |-> FALSE]]
+           rc == IF init = "reenter" /\ Runs(s1, creator)
+                 THEN RunOps(s1, creator, <<[op |-> "create", init |-> "ok"]>>, 1, 0)
+                 ELSE [ok |-> TRUE, S |-> s1, res |-> <<>>]
+           s2 == IF rc.ok THEN rc.S ELSE s1
+       IN  [ok |-> TRUE, id |-> i, how |-> how, rob |-> rb, res |-> rc.res,
+            S |-> [s2 EXCEPT !.act[i].hc = init \in {"ok", "reenter"}]]
 
 \* the EAM's create_actor + init.Exec4 + EVM constructor / Resurrect
-Deploy(s, a, init) ==
+Deploy(s, a, init, creator) ==
   IF Reserved(a) THEN NoDeploy
   ELSE IF a \in DOMAIN s.amap THEN
        LET i == s.amap[a] IN
        IF i \notin Ids(s) THEN NoDeploy
        ELSE IF s.act[i].code = "evm" THEN
-            IF Dead(s, i) THEN Construct(s, i, a, init, "resurrect", None) ELSE NoDeploy
-       ELSE IF s.act[i].code = "placeholder" THEN Construct(Robust(s, i), i, a, init, "placeholder", RobName(i))
+            IF Dead(s, i) THEN Construct(s, i, a, init, "resurrect", None, creator) ELSE NoDeploy
+       ELSE IF s.act[i].code = "placeholder"
+            THEN Construct(Robust(s, i), i, a, init, "placeholder", RobName(i), creator)
        ELSE NoDeploy
-  ELSE Construct(Robust(NewActor(s, a, "placeholder"), s.next), s.next, a, init, "new", RobName(s.next))
+  ELSE Construct(Robust(NewActor(s, a, "placeholder"), s.next), s.next, a, init, "new", RobName(s.next), creator)
 
 Attempt(d, kind, n, salt, init, a, r) ==
   [d |-> d, kind |-> kind, nonce |-> n, salt |-> salt, init |-> init, f4 |-> a,
@@ -105,7 +116,6 @@ Unkeep(res) == [k \in 1..Len(res) |-> [res[k] EXCEPT !.kept = FALSE]]
      [op |-> "destroy", ben]              ben: <<"caller">> or an f4 address (a placeholder is auto-created if new)
      [op |-> "revert"]
    RunOps returns [ok, S, res]; ok = FALSE: the frame reverted, its effects are dropped by the caller. *)
-RECURSIVE RunOps(_, _, _, _, _)
 RunOps(s, self, prog, i, lastC) ==
   IF i > Len(prog) THEN [ok |-> TRUE, S |-> s, res |-> <<>>]
   ELSE LET o == prog[i] IN
@@ -114,14 +124,14 @@ RunOps(s, self, prog, i, lastC) ==
                a  == IF o.op = "create" THEN <<"c1", s.act[self].addr, n>>
                                         ELSE <<"c2", s.act[self].addr, o.salt, o.init>>
                s1 == [s EXCEPT !.act[self].nonce = n + 1]      \* consumed BEFORE, kept on failure
-               r  == Deploy(s1, a, o.init)
+               r  == Deploy(s1, a, o.init, self)
                s2 == IF r.ok THEN r.S ELSE s1
                at == Attempt(self, IF o.op = "create" THEN "c1" ELSE "c2",
                              IF o.op = "create" THEN n ELSE -1,
                              IF o.op = "create2" THEN o.salt ELSE "-", o.init, a, r)
                rest == RunOps(s2, self, prog, i + 1, IF r.ok THEN r.id ELSE 0)
            IN  [ok |-> rest.ok, S |-> rest.S,
-                res |-> <<IF rest.ok THEN at ELSE [at EXCEPT !.kept = FALSE]>> \o rest.res]
+                res |-> (IF rest.ok THEN <<at>> \o r.res ELSE Unkeep(<<at>> \o r.res)) \o rest.res]
       [] o.op = "call" ->
            LET t  == IF o.to = <<"last">> THEN lastC ELSE IdOf(s, o.to)
                rc == IF Runs(s, t) THEN RunOps(s, t, o.prog, 1, 0)
@@ -172,17 +182,17 @@ Do(s, c) ==
                   i  == IF ex THEN b.amap[c.f4] ELSE b.next
               IN  IF ex /\ (i \notin Ids(b) \/ b.act[i].code # "placeholder") THEN fail
                   ELSE LET s1 == IF ex THEN b ELSE NewActor(b, c.f4, "placeholder")
-                           r  == Construct(Robust(s1, i), i, c.f4, c.init, IF ex THEN "placeholder" ELSE "new", RobName(i))
+                           r  == Construct(Robust(s1, i), i, c.f4, c.init, IF ex THEN "placeholder" ELSE "new", RobName(i), 0)
                        IN  IF r.ok THEN [ok |-> TRUE, S |-> r.S, res |-> <<>>, rid |-> i, robust |-> r.rob] ELSE fail
     [] c.a = "CreateExternal" ->
          IF Builtin(c.from) \/ ~Exists(s, c.from) THEN fail
          ELSE LET i == s.amap[c.from]
                   a == <<"ext", s.act[i].addr, s.act[i].seq>>
-                  r == Deploy(b, a, c.init)
+                  r == Deploy(b, a, c.init, i)
                   at == Attempt(i, "ext", s.act[i].seq, "-", c.init, a, r)
               IN  IF b.act[i].code \notin {"account", "ethaccount"}      \* refused before any address is computed
                   THEN [fail EXCEPT !.res = <<[Attempt(i, "ext", s.act[i].seq, "-", c.init, a, NoDeploy) EXCEPT !.kept = FALSE]>>]
-                  ELSE IF r.ok THEN [ok |-> TRUE, S |-> r.S, res |-> <<at>>, rid |-> r.id, robust |-> r.rob]
+                  ELSE IF r.ok THEN [ok |-> TRUE, S |-> r.S, res |-> <<at>> \o r.res, rid |-> r.id, robust |-> r.rob]
                   ELSE [fail EXCEPT !.res = <<[at EXCEPT !.kept = FALSE]>>]
     [] c.a = "Invoke" ->
          LET t == IdOf(b, c.to) IN
